@@ -389,6 +389,117 @@ fn pke_and_header(fxx: &Fx, st: &mut Stats, rng: &mut Rng) {
     }
 }
 
+/// Wide encapsulations (130 targets, classic and hybridized): one bit flipped in every entry in
+/// turn (masked seed, and ML-KEM ciphertext when hybridized), plus entry-level rearrangements at
+/// the positions around 127/128/129. Keys: three holders of one targeted attribute each, one
+/// holder of a non-targeted attribute.
+fn wide(st: &mut Stats, rng: &mut Rng) {
+    for hybrid in [false, true] {
+        let cc = Covercrypt::default();
+        let Out::Ok((mut msk, _)) = call(|| cc.setup()) else { return };
+        let _ = msk.access_structure.add_anarchy("W".into());
+        for i in 0..132 {
+            let _ = msk.access_structure.add_attribute(QualifiedAttribute::new("W", &format!("a{i}")), hint(hybrid), None);
+        }
+        let Out::Ok(mpk) = call(|| cc.update_msk(&mut msk)) else {
+            st.inconclusive.push("wide fixture failed".into());
+            return;
+        };
+        let pol = (0..130).map(|i| format!("W::a{i}")).collect::<Vec<_>>().join(" || ");
+        let ap = AccessPolicy::parse(&pol).unwrap();
+        let Out::Ok((secret, enc)) = call(|| cc.encaps(&mpk, &ap)) else { return };
+        let Some(bytes) = ser(&enc).ok() else { return };
+        let Ok(w) = WXenc::parse(&bytes) else {
+            st.inconclusive.push("wire reader rejects the wide base".into());
+            return;
+        };
+        if w.encs.len() != 130 || w.hybrid != hybrid {
+            st.inconclusive.push(format!("wide base has {} entries, hybrid={}", w.encs.len(), w.hybrid));
+            return;
+        }
+        let mut keys = vec![];
+        for a in [3usize, 64, 129, 131] {
+            let kp = AccessPolicy::parse(&format!("W::a{a}")).unwrap();
+            if let Out::Ok(u) = call(|| cc.generate_user_secret_key(&mut msk, &kp)) {
+                keys.push((a, u));
+            }
+        }
+        // sanity: holders open, the outsider does not
+        for (a, u) in &keys {
+            let r = call(|| cc.decaps(u, &enc));
+            let ok = match (&r, *a < 130) {
+                (Out::Ok(Some(s)), true) => real::secret_bytes(s) == real::secret_bytes(&secret),
+                (Out::Ok(None), false) => true,
+                _ => false,
+            };
+            if !ok {
+                st.inconclusive.push(format!("wide base: key a{a} behaves unexpectedly on the untouched encapsulation"));
+                return;
+            }
+        }
+        let name = if hybrid { "hybrid-130" } else { "classic-130" };
+        let mut mutants: Vec<(String, WXenc)> = vec![];
+        for i in 0..w.encs.len() {
+            let mut m = w.clone();
+            let b = rng.below(32 * 8);
+            m.encs[i].1[b / 8] ^= 1 << (b % 8);
+            mutants.push((format!("bitflip/masked-seed#entry{i}"), m));
+            if hybrid {
+                let mut m = w.clone();
+                let b = rng.below(wire::CT * 8);
+                m.encs[i].0[b / 8] ^= 1 << (b % 8);
+                mutants.push((format!("bitflip/mlkem-ciphertext#entry{i}"), m));
+            }
+        }
+        for i in [0usize, 1, 126, 127, 128, 129] {
+            let mut m = w.clone();
+            m.encs.remove(i);
+            mutants.push((format!("drop-entry#entry{i}"), m));
+            let mut m = w.clone();
+            let e = m.encs[i].clone();
+            m.encs.insert(i, e);
+            mutants.push((format!("duplicate-entry#entry{i}"), m));
+            let mut m = w.clone();
+            m.encs.swap(i, (i + 1) % 130);
+            mutants.push((format!("permute-entries#entry{i}"), m));
+        }
+        for (op, m) in mutants {
+            let mb = m.write();
+            st.bump("mutants");
+            let Out::Ok(x) = de::<XEnc>(&mb) else {
+                st.bump("mutants_rejected_by_deserialization");
+                continue;
+            };
+            st.bump("mutants_used");
+            st.shapes.insert(fnv(format!("{name}|{}", op.split('#').next().unwrap_or("")).as_bytes()));
+            for (a, u) in &keys {
+                st.bump("decaps_of_mutants");
+                match call(|| cc.decaps(u, &x)) {
+                    Out::Ok(None) | Out::Err(_) => {}
+                    Out::Ok(Some(_)) => {
+                        st.findings.push(Finding {
+                            prop: "C07".into(),
+                            signature: format!("C07:modified-encapsulation-opens:{name}:{}", op.split('#').next().unwrap_or("")),
+                            detail: format!("{name} {op}: key W::a{a} obtained a secret from a modified encapsulation"),
+                            replay: json!({"monitor": "c07", "base": name, "op": op}),
+                        });
+                        break;
+                    }
+                    Out::Panic(p) => {
+                        st.findings.push(Finding {
+                            prop: "C07".into(),
+                            signature: format!("C07:decaps-panics-on-modified-encapsulation:{name}"),
+                            detail: format!("{op}: {p}"),
+                            replay: json!({"monitor": "c07", "base": name, "op": op}),
+                        });
+                        break;
+                    }
+                }
+            }
+        }
+    }
+}
+
 pub fn run(tier: &str, seed: u64, threads: usize) -> Stats {
     let mut st = Stats::default();
     let Some(fxx) = fx() else {
@@ -474,6 +585,10 @@ pub fn run(tier: &str, seed: u64, threads: usize) -> Stats {
                 if t == 0 && round == 0 {
                     let mut rng = Rng::new(seed);
                     pke_and_header(&fxx, &mut st, &mut rng);
+                }
+                if t == 1 % threads && round == 0 {
+                    let mut rng = Rng::new(seed ^ 0x51de);
+                    wide(&mut st, &mut rng);
                 }
                 let mut seen = std::collections::BTreeSet::new();
                 st.findings.retain(|f| seen.insert(f.signature.clone()));
